@@ -148,17 +148,22 @@ Admissible(pred, scores, classes) ==
 KmCent(st, cl) == IF st.cnt[cl] = 0 THEN <<st.init[cl], 1>> ELSE <<st.sum[cl], st.cnt[cl]>>
 \* squared distance point-centroid times den^2
 KmD2Num(p, cen, d) == SumSeq([j \in 1..d |-> (p[j] * cen[2] - cen[1][j]) * (p[j] * cen[2] - cen[1][j])])
-\* cl is a nearest centroid of p (exact rational comparison by cross-multiplication)
-KmNearest(st, p, cl, kk, d) ==
+\* the same for the other metrics of linfa-nn (legal through KMeans::params_with): the distance times den
+KmD1Num(p, cen, d)   == SumSeq([j \in 1..d |-> Abs(p[j] * cen[2] - cen[1][j])])                 \* L1  (Manhattan)
+KmDInfNum(p, cen, d) == MaxSet({Abs(p[j] * cen[2] - cen[1][j]) : j \in 1..d})                   \* Linf (Chebyshev)
+\* cl is a nearest centroid of p under the metric (exact rational comparison by cross-multiplication)
+KmNearest(st, p, cl, kk, d, metric) ==
   LET a == KmCent(st, cl) IN
-  \A c2 \in 1..kk : LET b == KmCent(st, c2) IN
-      KmD2Num(p, a, d) * (b[2] * b[2]) <= KmD2Num(p, b, d) * (a[2] * a[2])
-KmNearestSet(st, p, kk, d) == {cl \in 1..kk : KmNearest(st, p, cl, kk, d)}
+  \A c2 \in 1..kk : LET bb == KmCent(st, c2) IN
+      CASE metric = "l2"   -> KmD2Num(p, a, d) * (bb[2] * bb[2]) <= KmD2Num(p, bb, d) * (a[2] * a[2])
+        [] metric = "l1"   -> KmD1Num(p, a, d) * bb[2] <= KmD1Num(p, bb, d) * a[2]
+        [] metric = "linf" -> KmDInfNum(p, a, d) * bb[2] <= KmDInfNum(p, bb, d) * a[2]
+KmNearestSet(st, p, kk, d, metric) == {cl \in 1..kk : KmNearest(st, p, cl, kk, d, metric)}
 \* all assignments of the batch points to nearest centroids (ties: every choice)
-RECURSIVE KmAssigns(_, _, _, _, _)
-KmAssigns(st, batch, i, kk, d) ==
+RECURSIVE KmAssigns(_, _, _, _, _, _)
+KmAssigns(st, batch, i, kk, d, metric) ==
   IF i > Len(batch) THEN {<<>>}
-  ELSE {<<cl>> \o rest : cl \in KmNearestSet(st, batch[i], kk, d), rest \in KmAssigns(st, batch, i + 1, kk, d)}
+  ELSE {<<cl>> \o rest : cl \in KmNearestSet(st, batch[i], kk, d, metric), rest \in KmAssigns(st, batch, i + 1, kk, d, metric)}
 \* the running-mean fold of one batch in closed form: the first point of an empty cluster replaces its initial centroid
 KmFold(st, batch, asg, kk, d) ==
   [init |-> st.init,
@@ -175,7 +180,7 @@ KmDenProd(st, st2, kk) ==
   LET f[cl \in 0..kk] == IF cl = 0 THEN 1
                          ELSE IF cl \in KmMoved(st, st2, kk) THEN f[cl - 1] * KmCent(st, cl)[2] * st2.cnt[cl] ELSE f[cl - 1]
   IN f[kk]
-KmShiftCmp(st, st2, kk, d, tol) ==
+KmShiftCmpL2(st, st2, kk, d, tol) ==
   LET moved == KmMoved(st, st2, kk)
       small == /\ \A cl \in moved : /\ KmCent(st, cl)[2] * st2.cnt[cl] <= 30
                                     /\ \A j \in 1..d : Abs(st2.sum[cl][j] * KmCent(st, cl)[2] - KmCent(st, cl)[1][j] * st2.cnt[cl]) <= 240
@@ -201,6 +206,30 @@ KmShiftCmp(st, st2, kk, d, tol) ==
         tsq == t3 * t3
         twin == 2 * t3 + 2
     IN IF sq + win < tsq - twin THEN -1 ELSE IF sq - win > tsq + twin THEN 1 ELSE 0
+
+\* The shift is the configured metric applied to the whole centroid matrix (fit_with: dist_fn.distance(old, new)).
+\* entry (cl, j) of |new - old| is |e.n| / e.d
+KmShiftEntries(st, st2, kk, d) ==
+  {[n |-> Abs(st2.sum[cl][j] * KmCent(st, cl)[2] - KmCent(st, cl)[1][j] * st2.cnt[cl]), d |-> KmCent(st, cl)[2] * st2.cnt[cl], at |-> <<cl, j>>] :
+      cl \in KmMoved(st, st2, kk), j \in 1..d}
+\* Linf: the largest entry against tol, entry by entry, exact
+KmShiftCmpLinf(st, st2, kk, d, tol) ==
+  LET es == KmShiftEntries(st, st2, kk, d) IN
+  IF \E en \in es : en.n * tol.den > tol.num * en.d THEN 1
+  ELSE IF \A en \in es : en.n * tol.den < tol.num * en.d THEN -1 ELSE 0
+\* L1: the sum of the entries at 10^-6 (each truncated by < 1 unit) against tol
+KmShiftCmpL1(st, st2, kk, d, tol) ==
+  LET moved == KmMoved(st, st2, kk)
+      lo == SumSeq([cl \in 1..kk |-> IF cl \notin moved THEN 0 ELSE
+              SumSeq([j \in 1..d |-> DivPow(Abs(st2.sum[cl][j] * KmCent(st, cl)[2] - KmCent(st, cl)[1][j] * st2.cnt[cl]),
+                                            KmCent(st, cl)[2] * st2.cnt[cl], 6)])])
+      hi == lo + Cardinality(moved) * d
+      t6 == DivPow(tol.num, tol.den, 6)
+  IN IF hi < t6 THEN -1 ELSE IF lo > t6 + 1 THEN 1 ELSE 0
+KmShiftCmp(st, st2, kk, d, tol, metric) ==
+  CASE metric = "l2"   -> KmShiftCmpL2(st, st2, kk, d, tol)
+    [] metric = "l1"   -> KmShiftCmpL1(st, st2, kk, d, tol)
+    [] metric = "linf" -> KmShiftCmpLinf(st, st2, kk, d, tol)
 
 -----------------------------------------------------------------------------
 (* I.4  FTRL-proximal, per coordinate, fixed point 10^-6 *)
@@ -385,6 +414,18 @@ FtFacts ==
        /\ (~wz) => Sgn(w) = -Sgn(z6)                                       \* FtSign
        /\ (h.l1 = 0 /\ h.l2 = 0) =>                                        \* FtOgd: w' = w - alpha g / (beta + sqrt n')
              Abs(w2 - (w - MulS6(g6, DivPow(h.alpha, SqrtS6(n2) + h.beta, 6)))) <= 60
+\* k-means shift under the three metrics: with one feature and one moved cluster they are the same number |c' - c|,
+\* so the three comparisons must agree wherever both decide; and L1 >= L2 >= Linf in general
+KmGridSt == {[init |-> <<<<i1>>, <<4>>>>, sum |-> <<<<s1>>, <<0>>>>, cnt |-> <<n1, 0>>] : i1 \in {0, 3}, s1 \in 0..6, n1 \in 0..3}
+KmMetricFacts ==
+  \A st \in KmGridSt, pt \in {0, 1, 2, 5}, tol \in {[num |-> 1, den |-> 2], [num |-> 3, den |-> 4], [num |-> 3, den |-> 2], [num |-> 2, den |-> 1]} :
+    LET st2 == KmFold(st, <<<<pt>>>>, <<1>>, 2, 1)
+        c2 == KmShiftCmp(st, st2, 2, 1, tol, "l2")  c1 == KmShiftCmp(st, st2, 2, 1, tol, "l1")  ci == KmShiftCmp(st, st2, 2, 1, tol, "linf")
+    IN /\ (c1 # 0 /\ ci # 0) => c1 = ci
+       /\ (c2 # 0 /\ ci # 0) => c2 = ci
+       /\ \* the exact rational |c' - c| against tol, straight from the definition
+          LET a == KmCent(st, 1)  nn == Abs(st2.sum[1][1] * a[2] - a[1][1] * st2.cnt[1])  dd == a[2] * st2.cnt[1] IN
+          ci = (IF nn * tol.den > tol.num * dd THEN 1 ELSE IF nn * tol.den < tol.num * dd THEN -1 ELSE 0)
 \* evaluated once (in the single state of the smallest design model), not in every state
-FtFactsOnce == (b = 0 /\ Len(drows) = 1 /\ drows[1] = 0) => FtFacts
+FtFactsOnce == (b = 0 /\ Len(drows) = 1 /\ drows[1] = 0) => (FtFacts /\ KmMetricFacts)
 =============================================================================
